@@ -39,7 +39,7 @@ THOROUGH = [
     ("n2e3", {"MaxEval": "3"}, True, 1800),
     ("n3e1", {"NJobs": "3", "MaxEval": "1", "WithFlaky": "FALSE"}, True, 3600),
     ("n3e2", {"NJobs": "3", "MaxEval": "2", "Edits": '{"d", "b"}', "WithMisuse": "FALSE", "WithFlaky": "FALSE",
-              "Cmps": '{"exact"}', "UsesModes": '{"all"}', "AllOrders": "FALSE", "WithAbort": "FALSE"}, True, 7200),
+              "Cmps": '{"exact"}', "UsesModes": '{"all"}', "AllOrders": "FALSE", "WithAbort": "TRUE"}, True, 7200),
 ]
 
 
